@@ -123,6 +123,7 @@ type c19Step struct {
 	Spec   string `json:"spec"`
 	Client bool   `json:"client"`
 	API    bool   `json:"api"`
+	Dne    bool   `json:"dne"`
 	F      string `json:"f"`
 	How    string `json:"how"`
 }
@@ -139,9 +140,10 @@ func checkC19(c *core.Check) {
 		cfg     string
 		workers int
 	}
-	runs := []mc{{"MC_GenDir.cfg", 4}}
+	// MC_GenDir_dne*: histories in which the header option changes between runs (length <= 2 / <= 3)
+	runs := []mc{{"MC_GenDir.cfg", 4}, {"MC_GenDir_dne.cfg", 4}}
 	if c.Tier == "thorough" {
-		runs = []mc{{"MC_GenDir.cfg", 4}, {"MC_GenDir_len4.cfg", 8}, {"MC_GenDir_thorough.cfg", 16}}
+		runs = []mc{{"MC_GenDir.cfg", 4}, {"MC_GenDir_dne3.cfg", 8}, {"MC_GenDir_len4.cfg", 8}, {"MC_GenDir_thorough.cfg", 16}}
 	}
 	userFiles := []string{"notes.txt", "zz_user.go"}
 	files := append(append([]string{}, c19Owned...), userFiles...)
@@ -187,13 +189,15 @@ func checkC19(c *core.Check) {
 	for _, s := range []string{"s0", "s1", "s2", "sP", "sH"} {
 		for _, cl := range []bool{false, true} {
 			for _, a := range []bool{false, true} {
-				invIdx[c19Inv{s, cl, a}] = len(invs) + 1
-				invs = append(invs, c19Inv{s, cl, a})
+				for _, dne := range []bool{true, false} {
+					invIdx[c19Inv{s, cl, a, dne}] = len(invs) + 1
+					invs = append(invs, c19Inv{s, cl, a, dne})
+				}
 			}
 		}
 	}
 	mkJob := func(k c19Inv, dir string) core.GenJob {
-		return core.GenJob{Spec: c19Specs[k.spec], SpecName: "openapi.yaml", OutDir: dir, Package: "gen", Client: k.client, APIHandler: k.api, DoNotEdit: true, SpecHandler: "openapi.yaml"}
+		return core.GenJob{Spec: c19Specs[k.spec], SpecName: "openapi.yaml", OutDir: dir, Package: "gen", Client: k.client, APIHandler: k.api, DoNotEdit: k.dne, SpecHandler: "openapi.yaml"}
 	}
 	var fjobs []core.GenJob
 	for _, k := range invs {
@@ -272,7 +276,7 @@ func checkC19(c *core.Check) {
 				}
 				continue
 			}
-			j := mkJob(c19Inv{st.Spec, st.Client, st.API}, "@chain")
+			j := mkJob(c19Inv{st.Spec, st.Client, st.API, st.Dne}, "@chain")
 			j.PreFiles, j.PreDelete = pendingFiles, pendingDel
 			if first {
 				if j.PreFiles == nil {
@@ -328,7 +332,7 @@ func checkC19(c *core.Check) {
 				return
 			}
 			d, extra := dirOf(r.Files)
-			add(map[string]any{"ev": "Run", "inv": invIdx[c19Inv{st.Spec, st.Client, st.API}], "ok": r.OK, "dir": d, "extra": extra})
+			add(map[string]any{"ev": "Run", "inv": invIdx[c19Inv{st.Spec, st.Client, st.API, st.Dne}], "ok": r.OK, "dir": d, "extra": extra})
 		}
 	}
 
@@ -344,8 +348,12 @@ func checkC19(c *core.Check) {
 	c.Cov["distinct_nontrivial"] = jr.Nontriv
 	c.Cov["accepted"] = jr.Accepted
 	c.Cov["exhaustive"] = true
-	c.Cov["rule"] = "TLC (MC_GenDir) enumerates every history of invocations (and user edits) within the bounds of the cfg; each is replayed on the real generator in a fresh directory; a history is non-trivial when some successful run found an owned file it had to remove or rewrite with different bytes"
-	c.Cov["bounds"] = map[string]any{"configs": runs, "histories": len(hists), "invocations": len(invs)}
+	c.Cov["rule"] = "TLC (MC_GenDir) enumerates every history of invocations (spec with / without components x client x api handler, the DO NOT EDIT header option switched between runs in the *_dne configurations, and user edits) within the bounds of the cfgs; each is replayed on the real generator in a fresh directory; a history is non-trivial when some successful run found an owned file it had to remove or rewrite with different bytes"
+	var cfgNames []string
+	for _, m := range runs {
+		cfgNames = append(cfgNames, m.cfg)
+	}
+	c.Cov["bounds"] = map[string]any{"configs": cfgNames, "histories": len(hists), "invocations": len(invs)}
 	for i := 0; i < len(hists) && i < 3; i++ {
 		c.Sample(hists[(i*7919)%len(hists)])
 	}
@@ -360,6 +368,7 @@ func checkC19(c *core.Check) {
 type c19Inv struct {
 	spec        string
 	client, api bool
+	dne         bool // the DO NOT EDIT header is written
 }
 
 func trunc(s string, n int) string {
